@@ -1,6 +1,7 @@
 package harness
 
 import (
+	"encoding/binary"
 	"encoding/json"
 	"errors"
 	"fmt"
@@ -57,6 +58,15 @@ func crashGen(r *rand.Rand, mode string, thorough bool) dbCase {
 			if r.Intn(4) == 0 {
 				// a value far larger than the memstore limit and the write buffers
 				prog[r.Intn(len(prog))] = dbOp{Kind: "put", Key: r.Intn(nkeys), ValLen: pick(r, 3000, 8000, 30000)}
+			}
+			if s > 0 && ci == 0 && r.Intn(3) == 0 {
+				// a later session that starts with deletes of keys written earlier: until its first Put the WAL
+				// holds tombstones only, while the values live in tables of the earlier sessions
+				var pre []dbOp
+				for j := 0; j < 1+r.Intn(3); j++ {
+					pre = append(pre, dbOp{Kind: "del", Key: r.Intn(nkeys)})
+				}
+				prog = append(pre, prog...)
 			}
 			if r.Intn(6) == 0 {
 				// a long run of deletes: they never rotate the memstore, so the WAL file keeps growing
@@ -366,6 +376,103 @@ func isWalCreateEv(e simrt.Event) bool {
 	return e.Kind == simrt.EvCreate && strings.HasPrefix(e.Path, "wal/")
 }
 
+type rotation struct{ doneAt, coversBefore int }
+
+// asyncBounds: pMin = mutations that had returned before the call that performed the last completed rotation,
+// invoked = mutations invoked before the kill.
+func asyncBounds(hist []*opRec, rotations []rotation, cutoff int) (pMin, invoked int) {
+	for _, op := range hist {
+		if op.Kind == "get" || op.Err != "" {
+			continue
+		}
+		if op.Inv != 0 && op.Inv < cutoff {
+			invoked++
+		}
+		for _, rot := range rotations {
+			if rot.doneAt < cutoff && op.Ret != 0 && op.Ret < rot.coversBefore {
+				pMin++
+				break
+			}
+		}
+	}
+	return
+}
+
+func walBytes(m *fsmodel.FS) int {
+	n := 0
+	for _, f := range m.Children("wal") {
+		if sz := m.Size("wal/" + f); sz > n {
+			n = sz
+		}
+	}
+	return n
+}
+
+type tailCut struct {
+	path   string
+	length int
+	what   string
+}
+
+// tornTailCuts parses the newest WAL file of the image and returns cut lengths inside its last complete record:
+// every byte of the header and a few payload positions.
+func tornTailCuts(m *fsmodel.FS) []tailCut {
+	files := m.Children("wal")
+	if len(files) == 0 {
+		return nil
+	}
+	p := "wal/" + files[len(files)-1]
+	data := m.Data(p)
+	if len(data) <= 8 {
+		return nil
+	}
+	pos, lastStart, lastHdr, lastEnd := 8, -1, 0, 0
+	for pos < len(data) {
+		q := pos + 3
+		if q+1 > len(data) || data[pos] != 0x91 || data[pos+1] != 0x8d || data[pos+2] != 0x4c {
+			break
+		}
+		isNil := data[q] == 1
+		q++
+		var vals [3]uint64
+		ok := true
+		for k := 0; k < 3; k++ {
+			v, n := binary.Uvarint(data[q:])
+			if n <= 0 {
+				ok = false
+				break
+			}
+			vals[k] = v
+			q += n
+		}
+		if !ok {
+			break
+		}
+		end := q + int(vals[1]) // WAL files are compressed: the stored payload has the compressed size
+		if isNil {
+			end = q
+		}
+		if end > len(data) {
+			break
+		}
+		lastStart, lastHdr, lastEnd = pos, q-pos, end
+		pos = end
+	}
+	if lastStart < 0 {
+		return nil
+	}
+	var cuts []tailCut
+	for L := lastStart + 1; L <= lastStart+lastHdr && L < lastEnd; L++ {
+		cuts = append(cuts, tailCut{p, L, fmt.Sprintf("header-byte-%d", L-lastStart)})
+	}
+	for _, L := range []int{lastStart + lastHdr + 1, (lastStart + lastHdr + lastEnd) / 2, lastEnd - 1} {
+		if L > lastStart+lastHdr && L < lastEnd {
+			cuts = append(cuts, tailCut{p, L, "payload"})
+		}
+	}
+	return cuts
+}
+
 // ---- the analysis of one case ----
 
 type crashOutcome struct {
@@ -508,6 +615,8 @@ func runCrashCaseFrom(c *Ctx, dc dbCase, tape *simrt.Tape, plan crashPlan, base 
 		desc  string
 	}
 	var cands []chainCand
+	seenCands := 0
+	tornDone := 0
 	// Rotations as the statement of C13 means them, observed without naming any mechanism: a WAL file is created inside
 	// the window of a client call (or of Open / Close); the rotation counts as done once that call has returned, and
 	// then every operation that had returned before the call started must survive. (Counting from the file creation
@@ -536,7 +645,6 @@ func runCrashCaseFrom(c *Ctx, dc dbCase, tape *simrt.Tape, plan crashPlan, base 
 			}
 		}
 	}
-	type rotation struct{ doneAt, coversBefore int }
 	var rotations []rotation
 	for _, e := range trace {
 		if isWalCreateEv(e) {
@@ -547,8 +655,33 @@ func runCrashCaseFrom(c *Ctx, dc dbCase, tape *simrt.Tape, plan crashPlan, base 
 			}
 		}
 	}
-	nestedBudget := 6
+	nestedBudget := 10
+	nChosen := 0
+	for _, ch := range choose {
+		if ch {
+			nChosen++
+		}
+	}
 	compactionNested := 0
+	earlyNested := 0
+	nestedQuota := nestedBudget
+	// trace indexes of the first few mutating events after the Open of every session but the first
+	earlyInLaterSession := map[int]bool{}
+	{
+		opens, since := 0, 1<<30
+		for i, e := range trace {
+			if e.Kind == simrt.EvMark && e.Note == "opened" {
+				opens++
+				since = 0
+			}
+			if simrt.Mutating(e.Kind) {
+				if opens >= 2 && since < 6 {
+					earlyInLaterSession[i] = true
+				}
+				since++
+			}
+		}
+	}
 	if plan.thorough {
 		nestedBudget = 40
 	}
@@ -598,21 +731,7 @@ func runCrashCaseFrom(c *Ctx, dc dbCase, tape *simrt.Tape, plan crashPlan, base 
 		}
 		var kind, detail string
 		if plan.mode == "async" {
-			pMin, invoked := 0, 0
-			for _, op := range hist {
-				if op.Kind == "get" || op.Err != "" {
-					continue
-				}
-				if op.Inv != 0 && op.Inv < cutoff {
-					invoked++
-				}
-				for _, rot := range rotations {
-					if rot.doneAt < cutoff && op.Ret != 0 && op.Ret < rot.coversBefore {
-						pMin++
-						break
-					}
-				}
-			}
+			pMin, invoked := asyncBounds(hist, rotations, cutoff)
 			kind, detail = judgePrefix(hist, dc.Keys, rec.state, pMin, invoked)
 		} else {
 			kind, detail = judgeSync(hist, dc.Keys, rec.state, cutoff)
@@ -621,16 +740,45 @@ func runCrashCaseFrom(c *Ctx, dc dbCase, tape *simrt.Tape, plan crashPlan, base 
 			add("wrong-content|"+kind+"|"+tagStr, fmt.Sprintf("%s (%s)", detail, where))
 			continue
 		}
+		if plan.mode == "async" && !cached && tornDone < 3 && rs.Intn(8) == 0 {
+			// A buffer flush of the asynchronous WAL can end at any byte of a record (it depends on the sizes logged
+			// before). The executions sampled here cut at a few positions only, so the newest WAL file of this image
+			// is additionally cut at every byte of its last record's header and at some payload positions: each is
+			// the crash image of an execution with other value sizes. The same oracle applies.
+			if cuts := tornTailCuts(m); len(cuts) > 0 {
+				tornDone++
+				pMin, invoked := asyncBounds(hist, rotations, cutoff)
+				for _, cut := range cuts {
+					tm := m.Clone()
+					if err := tm.Apply(simrt.Event{Kind: simrt.EvTruncate, Path: cut.path, N: int64(cut.length)}); err != nil {
+						panic(err)
+					}
+					trec := recoverImage(c, tm, dc.Recovery, dc.Keys, simrt.NewTape(int64(cut.length)), false)
+					out.recoveries++
+					out.tagCounts["synthetic-torn-wal-tail"]++
+					tw := fmt.Sprintf("%s; newest WAL file %s additionally cut to %d of %d bytes (%s)", where, cut.path, cut.length, m.Size(cut.path), cut.what)
+					if trec.openErr != nil {
+						add("open-error|"+normErr(trec.openErr)+"|torn-tail:"+cut.what, fmt.Sprintf("re-opening fails (%s): %v", tw, trec.openErr))
+						break
+					}
+					if k2, d2 := judgePrefix(hist, dc.Keys, trec.state, pMin, invoked); k2 != "" {
+						add("wrong-content|"+k2+"|torn-tail:"+cut.what, fmt.Sprintf("%s (%s)", d2, tw))
+						break
+					}
+				}
+			}
+		}
 		if rec.closeErr != nil {
 			add("close-after-recovery|"+normErr(rec.closeErr)+"|"+tagStr, fmt.Sprintf("Close after recovery fails (%s): %v", where, rec.closeErr))
 			continue
 		}
 		if plan.mode == "chain" && base == nil && !cached && bi > 0 && bi < len(mut) {
 			// candidates to continue from: tagged images first (a flush, compaction or rotation was in progress)
-			pri := len(tags) > 0
+			pri := len(tags) > 0 || walBytes(m) > 8
+			seenCands++
 			if len(cands) < 3 {
 				cands = append(cands, chainCand{m.Clone(), rec.state, where})
-			} else if pri && rs.Intn(3) == 0 || rs.Intn(40) == 0 {
+			} else if pri && rs.Intn(seenCands) < 6 { // reservoir over the whole trace, later sessions included
 				cands[rs.Intn(len(cands))] = chainCand{m.Clone(), rec.state, where}
 			}
 		}
@@ -643,8 +791,19 @@ func runCrashCaseFrom(c *Ctx, dc dbCase, tape *simrt.Tape, plan crashPlan, base 
 		// nested crashes inside recovery (C10)
 		// images whose recovery has to finish a compaction are rare and always branched; the others share a budget
 		mustNest := strings.Contains(tagStr, "compaction-flagged") && compactionNested < 12
+		// the first operations of a re-opened database: tables of earlier sessions exist, the WAL is short
+		if bi > 0 && earlyInLaterSession[mut[bi-1]] && earlyNested < 8 && walBytes(m) > 8 {
+			mustNest = true
+			earlyNested++
+			compactionNested--
+		}
 		if plan.mode == "nested" && !cached && (nestedBudget > 0 || mustNest) {
-			interesting := len(tags) > 0 || m.Size("wal/000000.wal") > 8 || rs.Intn(4) == 0
+			// the budget is spread over the whole trace (later sessions included) instead of being used up by the
+			// first boundaries; a recovery that has a WAL to replay or a tagged image is preferred
+			interesting := len(tags) > 0 || walBytes(m) > 8 || rs.Intn(4) == 0
+			if !mustNest && rs.Intn(nChosen+1) > 2*nestedQuota {
+				interesting = false
+			}
 			if interesting {
 				if mustNest {
 					compactionNested++
